@@ -75,10 +75,9 @@ EXPLANATION = ('Theorems (Props/C18.v) prove, for lists of every length over R, 
                'utils.project (SLSQP convergence and failure reporting) are runtime behaviour the model cannot exhibit; they are '
                'explored against an independent active-set QP.')
 ASSUMPTIONS = ['HalfSpace normals are non-zero (a zero normal yields NaN silently; outside the generators)',
-               'inputs are float arrays (List.project truncates integer arrays: reported finding, excluded from generation)',
                'utils.project / Dykstra nearestness: explored with an independent reference, not proved']
 TRUSTED_EXTRA = ['c18_common.py: active-set QP reference, cross-checked with scipy.optimize.nnls (LDP); scipy.optimize.linprog (HiGHS) for a feasible start']
-INT_DTYPE_CASES = False     # List.project on integer arrays: known finding, see finding_matches
+INT_DTYPE_CASES = True      # List.project on integer arrays (truncation fixed in /repo 28399a2)
 
 
 # ---------------------------------------------------------------------------------------------------
@@ -273,11 +272,17 @@ def impl_cost(r, p, maxiter, direct):
 
 
 def choose_maxiter(rng, a, b, p, friendly, direct):
-  """default 1000 unless the exact model would have to make many passes over growing rationals; then maxiter is lowered
-  (the raise path is part of the comparison)"""
-  budget = 500 if friendly else 60
+  """The default 1000 is used only on dyadic-friendly data (normals with entries in {0,+-1} and |n|^2 a power of two, boxes):
+  there the exact rationals of the model stay small however long the loop runs. Otherwise maxiter is small, so that the
+  cost of evaluating the model is bounded whatever the implementation does (the raise path is part of the comparison).
+  The count of elementary projections the implementation makes only ever lowers the choice."""
+  nested = a[0] == 'inter'
+  if friendly:
+    cands, budget = ([30, 12, 5, 2, 1] if nested else [pick(rng, [1000, 1000, 1000, 30, 12]), 60, 12, 5, 2, 1]), 500
+  else:
+    cands, budget = [pick(rng, [6, 4, 3]), 2, 1], 60
   r = ['inter', a, b]
-  for mi in [pick(rng, [1000, 1000, 1000, 30, 12]), 12, 5, 2, 1]:
+  for mi in cands:
     if impl_cost(r, p, mi, direct) <= budget:
       return mi
   return 1
@@ -371,7 +376,10 @@ def gen_cases(rng, tier):
     if rng.random() < 0.06 and r > 1:
       rs[-1] = gen_vec_region(rng, l + 1)
     m = [[dy(rng, -5, 5, 2) for _ in range(shape[1])] for _ in range(shape[0])]
-    out.append({'kind': 'list', 'rs': rs, 'axis': axis, 'm': m, 'dtype': 'float'})
+    dtype = 'float'
+    if INT_DTYPE_CASES and i % 4 == 3:   # integer-typed input (list of ints / int array)
+      m, dtype = [[F(rng.randint(-5, 5)) for _ in r] for r in m], 'int'
+    out.append({'kind': 'list', 'rs': rs, 'axis': axis, 'm': m, 'dtype': dtype})
   # (4) device level
   for i in range(90 * k):
     out.append(gen_tree_case(rng, i))
@@ -543,7 +551,7 @@ def classify(c, o):
         dev = float(np.abs(np.array(fl(o['res'][1])) - ref).max())
         ks.append('dykstra-vs-QP:' + ('<=1e-9' if dev <= 1e-9 else '<=1e-7' if dev <= 1e-7 else '<=1e-5' if dev <= 1e-5 else '>1e-5'))
   elif k == 'list':
-    ks += ['axis:%d' % c['axis'], 'list:' + tagof(o['res'])]
+    ks += ['axis:%d' % c['axis'], 'list:' + tagof(o['res']), 'list-dtype:' + c.get('dtype', 'float')]
   elif k == 'tree':
     ks += ['tree-depth:%d' % tg.depth(c['t']), 'input:' + c['shape'], 'fill:' + c['fill'], 'tree:' + tagof(o['res'])]
     ks += ['has:' + x for x in tg.kinds(c['t'])]
@@ -754,13 +762,13 @@ def oracle_tree(c):
   return None
 
 
-def oracle_uproj(c):
+def oracle_uproj(c, skip_degenerate=True):
   from device_kit.utils import project
   dev = tg.build_tree(c['t'])
   desc = cc.linear_description(dev)
   p = np.array(fl(c['p']))
   ref = cc.nearest(p, desc)
-  if ref is None or not desc[6] or cc.degenerate(desc) or cc.licq_fails(ref, desc):
+  if ref is None or not desc[6] or (skip_degenerate and (cc.degenerate(desc) or cc.licq_fails(ref, desc))):
     return None      # linearly dependent active constraints: SLSQP's success flag is unreliable there (reported finding)
   x0 = cc.feasible_point(desc)
   x, o = project(p.reshape(dev.shape), x0.copy(), dev.bounds, dev.constraints)
@@ -784,15 +792,29 @@ def oracle(c):
     return 'implementation raised %s: %s' % (type(e).__name__, str(e)[:200])
 
 
+SLSQP_FINDING = 'slsqp-false-success-dependent-constraints'
+
+
 def finding_matches(f, c):
-  return f.get('id') == 'list-project-int-dtype' and c['kind'] == 'list' and c.get('dtype') == 'int'
+  """the open SLSQP finding: utils.project problems whose active constraints are linearly dependent at the optimum"""
+  if f.get('id') != SLSQP_FINDING or c['kind'] != 'uproj':
+    return False
+  dev = tg.build_tree(c['t'])
+  desc = cc.linear_description(dev)
+  ref = cc.nearest(np.array(fl(c['p'])), desc)
+  return ref is not None and desc[6] and (cc.degenerate(desc) or cc.licq_fails(ref, desc))
 
 
 def witness_fails(f):
+  """replay the stored witness with the un-filtered oracle (the filter is what keeps the finding's region out of the run)"""
   w = f.get('witness')
   if not w:
     return True
-  return oracle(case_from_json(w)) is not None
+  w = w.get('C18', w) if isinstance(w, dict) and 'kind' not in w else w
+  c = case_from_json(w)
+  if c['kind'] == 'uproj':
+    return oracle_uproj(c, skip_degenerate=False) is not None
+  return oracle(c) is not None
 
 
 def search(rng, budget, seeds, findings):
